@@ -203,6 +203,34 @@ pub fn env_alphabet(t: usize) -> Vec<Letter> {
     env_alphabet_v(t, false)
 }
 
+/// unusual but (mostly) valid spellings of lines: what the parser accepts it must keep, value by value
+pub fn spell_letters() -> Vec<Letter> {
+    [
+        "1, CONSUMO, ACS, EAMBIENTE, 1e1, +3",
+        "007, CONSUMO, ACS, EAMBIENTE, 3., .5",
+        "+1, PRODUCCION, EAMBIENTE, 2.50, 0.5",
+        "1,CONSUMO,ACS,TERMOSOLAR,4,0",
+        "1 ,\tCONSUMO ,\tCAL ,\tEAMBIENTE ,\t2 ,\t2",
+        "  2,   PRODUCCION,   TERMOSOLAR,   1.000,   0.250   ",
+        "1, CONSUMO, ACS, EAMBIENTE, 1, 1 # coment # con # almohadillas",
+        "1, CONSUMO, ACS, EAMBIENTE, 1, 1 #",
+        "2, SALIDA, ACS, 5, 5 # salida",
+        "DEMANDA, ACS, 1e1, 2",
+        "1, CONSUMO, ACS, EAMBIENTE, 2, 2,",
+        "1, CONSUMO, ACS, EAMBIENTE, , 2",
+        "-0, CONSUMO, ACS, EAMBIENTE, 1, 1",
+        "1, CONSUMO, ACS, EAMBIENTE, -0, 1",
+        "1, CONSUMO, ACS, EAMBIENTE, 0.004, 0.005",
+        "1, CONSUMO, ACS, EAMBIENTE, 1.005, 2.675",
+        "2147483647, CONSUMO, ACS, EAMBIENTE, 1, 1",
+        "#META CTE_AREAREF: 10",
+        "vector, tipo, src_dst",
+    ]
+    .iter()
+    .map(|l| Letter::one(Line::Raw(l.to_string())))
+    .collect()
+}
+
 /// whole systems as composite letters, so that several complete systems interact within the depth bound: a use with its
 /// production declared in two lines (systems 1, 2 and 5, both carriers), and a system whose shortfall at one step is
 /// 0.01 kWh beside 1 000 000 kWh at another (annual sums in f32 cannot see it, the per-step rule must)
@@ -292,6 +320,8 @@ pub fn run(ctx: &Ctx) -> i32 {
         let n = if ctx.quick() { 14 } else { 16 };
         explore(ctx, &format!("COMBO: complete 12-step buildings, {n} subsystems absent/present"), Layered { slots: alpha::combo_slots(n), bases: alpha::bases(false) }, C05, shared.clone());
     }
+    explore(ctx, "VOCAB: every (service, carrier) pair / cogeneration fuel / production source added to a small building", Wide { alphabet: alpha::vocab_letters(), bases: alpha::vocab_base(), max_add: if ctx.quick() { 1 } else { 2 }, repeat: false }, C05, shared.clone());
+    explore(ctx, "SPELL: unusual spellings of ids, values, separators and comments, depth<=3", Wide { alphabet: spell_letters(), bases: alpha::bases(false), max_add: if ctx.quick() { 3 } else { 4 }, repeat: false }, C05, shared.clone());
     explore(ctx, "ENV systems: complete systems (use + production in two lines; 0.01 kWh beside 1e6 kWh) as letters, depth<=4", Wide { alphabet: env_systems(), bases: alpha::bases(false), max_add: if ctx.quick() { 4 } else { 6 }, repeat: false }, C05, shared.clone());
     explore(ctx, "seeded: shipped files + <=2 ENV lines (12 steps)", Wide { alphabet: alpha::seeded_letters(), bases: alpha::shipped_bases(), max_add: if ctx.quick() { 1 } else { 2 }, repeat: false }, C05, shared.clone());
     finish(
